@@ -1111,6 +1111,106 @@ prog_wsopts(void *arg)
 	lib_fini();
 }
 
+
+// ---- program: a further peer connects to a listener that already serves one ------------------------------
+// PUB listener with subscriber B connected and receiving; subscriber C opens, subscribes and dials with the
+// failing allocation somewhere on either side.  Whatever was lost to it (C's connection, one message), with a
+// healthy allocator afterwards C connects (again) and both subscribers receive what is published
+static int
+sub_gets(nng_socket s, const char *want)
+{
+	for (int i = 0; i < 8; i++) { // older messages may still be queued
+		nng_msg *m = NULL;
+		if (nng_recvmsg(s, &m, 0) != 0)
+			return 0;
+		int ok = nng_msg_len(m) == strlen(want) && memcmp(nng_msg_body(m), want, strlen(want)) == 0;
+		nng_msg_free(m);
+		if (ok)
+			return 1;
+	}
+	return 0;
+}
+static void
+prog_second_peer(void *arg)
+{
+	int        tcp = (int) (intptr_t) arg;
+	nng_socket a = NNG_SOCKET_INITIALIZER, b = NNG_SOCKET_INITIALIZER, c = NNG_SOCKET_INITIALIZER;
+	nng_listener l;
+	char       url[80];
+	int        ok, s1;
+	if (tcp)
+		vs_tcp_grace_us = 1500;
+	lib_init();
+	{
+		int save = va_choice; // the first subscriber is set up with a healthy allocator
+		va_choice = 0;
+		LOCAL(nng_pub0_open(&a));
+		LOCAL(nng_sub0_open(&b));
+		LOCAL(nng_sub0_socket_subscribe(b, "", 0));
+		LOCAL(nng_socket_set_ms(b, NNG_OPT_RECVTIMEO, 100));
+		LOCAL(nng_listen(a, tcp ? "tcp://127.0.0.1:0" : "inproc://c20second", &l, 0));
+		if (tcp) {
+			int port = 0;
+			LOCAL(nng_listener_get_int(l, NNG_OPT_BOUND_PORT, &port));
+			snprintf(url, sizeof(url), "tcp://127.0.0.1:%d", port);
+		} else
+			snprintf(url, sizeof(url), "inproc://c20second");
+		LOCAL(nng_dial(b, url, NULL, 0));
+		vs_settle();
+		send1(a, "one", &s1);
+		vs_settle();
+		if (!s1 || !sub_gets(b, "one"))
+			vs_fail("harness:fault-free", "first subscriber does not receive");
+		va_choice = save;
+	}
+	LOCAL(nng_sub0_open(&c));
+	LOCAL(nng_sub0_socket_subscribe(c, "", 0));
+	LOCAL(nng_socket_set_ms(c, NNG_OPT_RECVTIMEO, 100));
+	NET(nng_dial(c, url, NULL, 0), ok);
+	vs_settle();
+	send1(a, "two", &s1);
+	vs_settle();
+	if (s1 && !va_failed && (!sub_gets(b, "two") || !sub_gets(c, "two")))
+		vs_fail("harness:fault-free", "message two not received by both");
+	// healthy epilogue
+	{
+		int save = va_choice, rv = ok ? 0 : -1, got_b = 0, got_c = 0;
+		va_choice = 0;
+		for (int t = 0; t < 50 && rv != 0; t++) {
+			rv = nng_dial(c, url, NULL, 0);
+			if (rv != 0)
+				vs_sleep(100);
+		}
+		if (rv != 0)
+			vs_fail("C20:wedged-after-failure",
+			    "a second subscriber whose first dial met the injected failure cannot connect in 5 s "
+			    "(%s); site %s", nng_strerror(rv), va_failed_site);
+		vs_settle();
+		for (int t = 0; t < 50 && !(got_b && got_c); t++) {
+			char tag[16];
+			snprintf(tag, sizeof(tag), "late%02d", t);
+			send1(a, tag, &s1);
+			vs_settle();
+			if (!got_b)
+				got_b = sub_gets(b, tag);
+			if (!got_c)
+				got_c = sub_gets(c, tag);
+			if (!(got_b && got_c))
+				vs_sleep(100);
+		}
+		if (!got_b || !got_c)
+			vs_fail("C20:wedged-after-failure",
+			    "after the failure met while a second subscriber connected, the %s subscriber receives "
+			    "nothing of 50 messages published over 5 s; site %s",
+			    !got_b ? "FIRST (already connected)" : "second", va_failed_site);
+		va_choice = save;
+	}
+	LOCAL(nng_socket_close(c));
+	LOCAL(nng_socket_close(b));
+	LOCAL(nng_socket_close(a));
+	lib_fini();
+}
+
 // ---- program: device ---------------------------------------------------------------------
 static void
 prog_device(void *arg)
@@ -1202,6 +1302,8 @@ main(int argc, char **argv)
 	explore("url-stats", prog_url, NULL);
 	explore("device", prog_device, NULL);
 	explore("msg-ops", prog_msg, NULL);
+	explore("second-peer-inproc", prog_second_peer, (void *) 0);
+	explore("second-peer-tcp", prog_second_peer, (void *) 1);
 	explore("stream-ipc", prog_stream, (void *) (intptr_t) T_IPC);
 	explore("stream-tcp", prog_stream, (void *) (intptr_t) T_TCP);
 	explore("http-server-client", prog_http, NULL);
